@@ -42,6 +42,11 @@ BASE = {
                               "res /t on get -> <tree> :: <status=404, @named>;\n"},
         "inline": ["leaf", "chain"], "identity": ["leaf"], "module": ["leaf", "tree"],
     },
+    "rec-named-or-written-in-place": {
+        "files": {"main.oal": "let r = rec x { 'k? x };\nlet a = { 'r r, 'b? b };\nlet b = { 'a? a, 'self? b };\nlet list = { 'payload (rec y { 'c? y }), 'next? list };\n"
+                              "res / on get -> <a> :: <status=404, b>;\nres /lists on get -> <list>;\n"},
+        "inline": ["r"], "identity": ["r"], "module": ["r"],
+    },
     "two-recursive-schemas": {
         "files": {"main.oal": "let tree = { 'id int, 'kids [tree] };\nlet chain = { 'id str, 'rest [chain] };\nres /t on get -> <tree>;\nres /c on get -> <chain>;\n"},
         "inline": [], "identity": [], "module": ["tree"], "split": [["tree"], ["chain"]],
@@ -241,6 +246,10 @@ def check():
     try:
         import props.c08 as c08
         c08.application_lemmas(o, M, E, M.one(r"^(eval::)?eval_application$"), structural)
+        # naming a rec with let or writing it in place is free only if the references that follow it in the same
+        # declaration still reach the definition graph (shared with C09)
+        import props.c09 as c09
+        c09.graph_lemmas(o, L, S, M, E, structural, on_sat)
     except KeyError as exn:
         o.inconc(str(exn)[:200])
 
